@@ -220,3 +220,75 @@ Print Assumptions static_columns_as_map.
 Print Assumptions volume_order.
 Print Assumptions volume_order_guard.
 Print Assumptions volume_blocks_order.
+
+(** Thermodynamic side: the harmonic free energy of the spectrum itself (the quantity QHA differentiates to get
+    P, C_V and the (T,P) map) and the closed forms C02 uses do not depend on the presentation either; hence
+    neither does any V- or T-derivative of it (FreeEnergyPerm.v). *)
+From Coquelicot Require Import Coquelicot.
+From Cij Require NonShear FreeEnergyPerm.
+
+Theorem free_energy_modes_order :
+  forall (K : @consts R) w sp sp' T V,
+    modes_perm sp sp' -> NonShear.F_ph K w sp T V = NonShear.F_ph K w sp' T V.
+Proof. exact FreeEnergyPerm.F_ph_modes_perm. Qed.
+
+Theorem free_energy_qpoint_order :
+  forall (K : @consts R) w0 r0 (wr wr' : list (R * list NonShear.mode)) T V,
+    Permutation wr wr' ->
+    NonShear.F_ph K (q_weights w0 wr) (q_rows r0 wr) T V = NonShear.F_ph K (q_weights w0 wr') (q_rows r0 wr') T V.
+Proof. exact FreeEnergyPerm.F_ph_q_perm. Qed.
+
+Theorem free_energy_weight_scale :
+  forall (K : @consts R) c w sp T V,
+    c <> 0 -> NonShear.Rsum w <> 0 ->
+    NonShear.F_ph K (map (fun x => c * x) w) sp T V = NonShear.F_ph K w sp T V.
+Proof. exact FreeEnergyPerm.F_ph_weight_scale. Qed.
+
+Theorem pressure_and_heat_capacity_sources_modes_order :
+  forall (K : @consts R) w sp sp' T V,
+    modes_perm sp sp' ->
+    Derive (NonShear.F_ph K w sp T) V = Derive (NonShear.F_ph K w sp' T) V /\
+    Derive_n (fun t => NonShear.F_ph K w sp t V) 2 T = Derive_n (fun t => NonShear.F_ph K w sp' t V) 2 T /\
+    NonShear.dPdT K w sp T V = NonShear.dPdT K w sp' T V.
+Proof.
+  intros K w sp sp' T V H. split; [| split].
+  - apply FreeEnergyPerm.dF_ph_dV_modes_perm, H.
+  - apply FreeEnergyPerm.d2F_ph_dT2_modes_perm, H.
+  - apply FreeEnergyPerm.dPdT_modes_perm, H.
+Qed.
+
+Theorem pressure_and_heat_capacity_sources_qpoint_order :
+  forall (K : @consts R) w0 r0 (wr wr' : list (R * list NonShear.mode)) T V,
+    Permutation wr wr' ->
+    Derive (NonShear.F_ph K (q_weights w0 wr) (q_rows r0 wr) T) V
+      = Derive (NonShear.F_ph K (q_weights w0 wr') (q_rows r0 wr') T) V /\
+    Derive_n (fun t => NonShear.F_ph K (q_weights w0 wr) (q_rows r0 wr) t V) 2 T
+      = Derive_n (fun t => NonShear.F_ph K (q_weights w0 wr') (q_rows r0 wr') t V) 2 T /\
+    NonShear.dPdT K (q_weights w0 wr) (q_rows r0 wr) T V = NonShear.dPdT K (q_weights w0 wr') (q_rows r0 wr') T V.
+Proof.
+  intros K w0 r0 wr wr' T V H. split; [| split].
+  - apply FreeEnergyPerm.dF_ph_dV_q_perm, H.
+  - apply FreeEnergyPerm.d2F_ph_dT2_q_perm, H.
+  - apply FreeEnergyPerm.dPdT_q_perm, H.
+Qed.
+
+Theorem pressure_and_heat_capacity_sources_weight_scale :
+  forall (K : @consts R) c w sp T V,
+    c <> 0 -> NonShear.Rsum w <> 0 ->
+    Derive (NonShear.F_ph K (map (fun x => c * x) w) sp T) V = Derive (NonShear.F_ph K w sp T) V /\
+    Derive_n (fun t => NonShear.F_ph K (map (fun x => c * x) w) sp t V) 2 T
+      = Derive_n (fun t => NonShear.F_ph K w sp t V) 2 T /\
+    NonShear.dPdT K (map (fun x => c * x) w) sp T V = NonShear.dPdT K w sp T V.
+Proof.
+  intros K c w sp T V Hc Hw. split; [| split].
+  - apply FreeEnergyPerm.dF_ph_dV_weight_scale; assumption.
+  - apply FreeEnergyPerm.d2F_ph_dT2_weight_scale; assumption.
+  - apply FreeEnergyPerm.dPdT_weight_scale; assumption.
+Qed.
+
+Print Assumptions free_energy_modes_order.
+Print Assumptions free_energy_qpoint_order.
+Print Assumptions free_energy_weight_scale.
+Print Assumptions pressure_and_heat_capacity_sources_modes_order.
+Print Assumptions pressure_and_heat_capacity_sources_qpoint_order.
+Print Assumptions pressure_and_heat_capacity_sources_weight_scale.
